@@ -23,18 +23,21 @@ const char* RULE =
 // CodedInputStream::PushLimit ignores such a limit: reserve(SIZE_MAX/sizeof(T)) throws
 // length_error inside a noexcept function. Shape excluded by default: limit-less stream
 // presentation and either the root is such a vector (or a smart pointer to one), or the root
-// reaches one and the payload holds a varint of 5 or more bytes (value >= 2^28). (Smaller announced
-// lengths are reserved as announced, up to 256 MiB from a few bytes of input; that is not counted
-// as a violation of the listed property and stays below the Watchdog's allocation bound.)
-inline bool has_huge_varint(const std::string& p) {
-  for (size_t i = 0; i + 4 < p.size(); i++)
-    if ((p[i] & 0x80) && (p[i + 1] & 0x80) && (p[i + 2] & 0x80) && (p[i + 3] & 0x80)) return true;
+// reaches one and the payload holds a varint of 4 or more bytes (value >= 2^21). The bound is that
+// low because the same line also reserves every announced length that PushLimit does accept
+// before a single element is read (up to 2 GiB from 6 bytes of input, again and again when the
+// vector sits behind a shared_ptr): not memory corruption, so not counted as a violation here, but
+// hundreds of such reservations in one payload take seconds under ASan and would trip the
+// termination watchdog.
+inline bool has_big_varint(const std::string& p) {
+  for (size_t i = 0; i + 3 < p.size(); i++)
+    if ((p[i] & 0x80) && (p[i + 1] & 0x80) && (p[i + 2] & 0x80)) return true;
   return false;
 }
 template <class T>
 bool known_f5_vector_reserve_unlimited_stream(int in_kind, const std::string& payload) {
   if (!in_is_unlimited_stream(in_kind)) return false;
-  return f5_reserves<T>::value || (f5_reserve_reach<T>() && has_huge_varint(payload));
+  return f5_reserves<T>::value || (f5_reserve_reach<T>() && has_big_varint(payload));
 }
 
 // Finding of this target (token c11-no-progress): a container of length-delimited elements reads each element's
@@ -74,7 +77,7 @@ void run_root(int root, int in_kind, const Pattern& pat, const std::string& payl
     vfz::label("excluded_known_no_progress");
     return;
   }
-  Watchdog watchdog(desc, 5);
+  Watchdog watchdog(desc, 20);
   auto first = std::make_unique<Holder<T>>();
   bool accepted = parse_with(in_kind, pat, payload, first->get());
   vfz::label(accepted ? "accepted" : "rejected");
